@@ -480,12 +480,21 @@ def runPOps (t : Ty) (n0 : Node) (ops : List POp) (key : String) : List String :
               -- `x[i] = x[j]`: the sub-view's backing node is written at position i (no content is read)
               (Impl.childOf H t n j).bind fun (c : Ty × Node) => Impl.setChildNode H t n i c.2
             | _ =>
-              let cur := (Impl.readVal H t n).getD .none
-              (expandHOp t cur ho).bind fun (p : List Impl.Op × Nat) =>
-                p.1.foldl (fun (acc : Option Node) o => acc.bind fun nn => Impl.apply H t nn o) (some n)
-          match res with
-          | some m => (m, "ok:" ++ hexOf (m.root H))
-          | none => (n, "err")
+              none
+          -- slice assignment writes element by element: a failure in the middle keeps the earlier writes
+          let (fin, okAll) : Node × Bool :=
+            match ho with
+            | .cpy _ _ => (res.getD n, res.isSome)
+            | _ =>
+              match expandHOp t .none ho with
+              | none => (n, false)
+              | some (ops, _) =>
+                ops.foldl (fun (acc : Node × Bool) o =>
+                  if !acc.2 then acc else
+                  match Impl.apply H t acc.1 o with
+                  | some m => (m, true)
+                  | none => (acc.1, false)) (n, true)
+          if okAll then (fin, "ok:" ++ hexOf (fin.root H)) else (fin, "err")
       go (k + 1) n' rest (kv (toString k ++ "." ++ key) res :: acc)
   go 0 n0 ops []
 
